@@ -19,6 +19,7 @@ import Scalibr.Spec.Semantic.NuGet
 import Scalibr.Spec.Semantic.Cran
 import Scalibr.Spec.Semantic.RedHat
 import Scalibr.Spec.Semantic.Alpine
+import Scalibr.Spec.Semantic.Ecosystems
 open Scalibr Scalibr.Semantic Scalibr.Wire
 
 def decodeStr (h : String) : Option (List Char) :=
@@ -31,6 +32,11 @@ def flags (f : Fam) (xs : List (List Char)) : String :=
   let gv := String.join (xs.map fun s => boolStr (acceptedByCode f s))
   let kf := String.join (xs.map fun s => boolStr (knownClass f s))
   s!"acc={acc} gv={gv} kf={kf}"
+
+def flags2 (f : Fam) (xs : List (List Char)) : String :=
+  let gv := String.join (xs.map fun s => boolStr (acceptedByCode f s))
+  let kf := String.join (xs.map fun s => boolStr (knownClass f s))
+  s!"gv={gv} kf={kf}"
 
 def specStr (o : Ordering) : String := s!" spec={(Outcome.ofOrd o).str}"
 
@@ -72,18 +78,40 @@ def specFields (f : Fam) (a b : List Char) : String :=
     | _, _ => ""
   | _ => ""
 
+/-- what the SPECIFICATION's ecosystem table says: `sup` = the name is a documented ecosystem; `spec=` the
+published rule's verdict under the DOCUMENTED rule of that name (not the one the model's `dispatch`
+chose); `wit=` the documented example verdict when the pair is one of the ecosystem's examples -/
+def ecoFields (eco : String) (a b : List Char) : String :=
+  match ecosystemRule eco with
+  | none => " sup=0"
+  | some g =>
+    let w := match witnessVerdict eco a b with
+      | some o => s!" wit={o.str}"
+      | none => ""
+    s!" sup=1{specFields g a b}{w}"
+
+/-- `MustParse`: returns the version when `Parse` does, panics with its error otherwise -/
+def mpFlag (p : Option Fam) (s : List Char) : String :=
+  match p with
+  | none => "u"
+  | some f =>
+    match f.family.parse s with
+    | .ok _ => "k"
+    | .err => "e"
+    | .panic => "p"
+
 def handle (line : String) : String :=
   match line.splitOn " " with
   | ["cmp", eco, ha, hb] =>
     match decodeStr ha, decodeStr hb with
     | some a, some b =>
       match dispatch (ecoName eco) with
-      | none => "r=unsup rr=unsup ra=unsup rb=unsup acc=00 gv=00 kf=00"
+      | none => s!"r=unsup rr=unsup ra=unsup rb=unsup acc=00 mp=uu gv=00 kf=00{ecoFields (ecoName eco) a b}"
       | some f =>
         let F := f.family
         let pa := F.parse a
         let pb := F.parse b
-        s!"r={(F.cmpParsed pa pb).str} rr={(F.cmpParsed pb pa).str} ra={(F.cmpParsed pa pa).str} rb={(F.cmpParsed pb pb).str} {flags f [a, b]}{specFields f a b}"
+        s!"r={(F.cmpParsed pa pb).str} rr={(F.cmpParsed pb pa).str} ra={(F.cmpParsed pa pa).str} rb={(F.cmpParsed pb pb).str} acc={boolStr (accepted f a)}{boolStr (accepted f b)} mp={mpFlag (some f) a}{mpFlag (some f) b} {flags2 f [a, b]}{ecoFields (ecoName eco) a b}"
     | _, _ => "bad-op"
   | ["tri", eco, ha, hb, hc] =>
     match decodeStr ha, decodeStr hb, decodeStr hc with
